@@ -686,8 +686,12 @@ class ModelRunner(object):
                 print(error_message)
                 self.hook_failures += 1
                 if "tag" in name:
-                    # -- SCENARIO or FEATURE
-                    statement = getattr(context, "scenario", context.feature)
+                    # -- SCENARIO, RULE or FEATURE (innermost one that is active)
+                    statement = getattr(context, "scenario", None)
+                    if statement is None:
+                        statement = getattr(context, "rule", None)
+                    if statement is None:
+                        statement = context.feature
                 elif "all" in name:
                     # -- ABORT EXECUTION: For before_all/after_all
                     self.abort(reason="HOOK-ERROR in hook=%s" % name)
